@@ -56,13 +56,24 @@ def wantCapa (a : Arr) (pos : Nat) : Nat :=
 def minCapa (a : Arr) (pos : Nat) : Nat :=
   if pos ≥ a.size then pos + 1 else a.size + 1
 
-/-- the `do { if (setcapa(capa)) break; if (capa <= mincapa) fail; capa--; } while (1)` loop.
+/-- largest capacity whose slot table (8-byte pointers) has a size in bytes that fits a 64-bit `hawk_oow_t`:
+    `HAWK_TYPE_MAX(hawk_oow_t) / HAWK_SIZEOF(*arr->slot)`.  hawk_arr_setcapa refuses anything larger without asking
+    the allocator; hawk_arr_insert refuses a position at or beyond it before computing a capacity. -/
+def maxCapa : Nat := (2 ^ 64 - 1) / 8
+
+/-- the allocation request inside hawk_arr_setcapa(capa), capa > 0: refused outright when the byte size would wrap,
+    otherwise the allocator (oracle) answers -/
+def setcapaAsk (capa : Nat) (o : Oracle) : Bool × Oracle :=
+  if capa > maxCapa then (false, o) else o.next
+
+/-- the `do { if (setcapa(capa)) break; if (capa <= mincapa) fail; capa = mincapa + (capa - mincapa) / 2; } while (1)` loop
+    (the excess over the minimum is halved on each refusal, so the number of requests is logarithmic in the gap).
     Returns the capacity obtained (none = gave up) and the remaining oracle. -/
 def retryCapa (capa mincapa : Nat) (o : Oracle) : Option Nat × Oracle :=
-  match o.next with
+  match setcapaAsk capa o with
   | (true, o') => (some capa, o')
   | (false, o') =>
-    if h : capa ≤ mincapa then (none, o') else retryCapa (capa - 1) mincapa o'
+    if h : capa ≤ mincapa then (none, o') else retryCapa (mincapa + (capa - mincapa) / 2) mincapa o'
 termination_by capa - mincapa
 decreasing_by omega
 
@@ -78,6 +89,8 @@ structure Res where
   orc : Oracle
 
 def insert (a : Arr) (pos v : Nat) (o : Oracle) : Res :=
+  -- a position no table can hold is refused before anything else
+  if pos ≥ maxCapa then ⟨a, .error .einval, [], o⟩ else
   -- alloc_slot first
   match o.next with
   | (false, o1) => ⟨a, .error .enomem, [], o1⟩
@@ -155,7 +168,7 @@ def setcapa (a : Arr) (capa : Nat) (o : Oracle) : Arr × Bool × List Ev × Orac
   else
     let (a1, _, ev1) := if capa < a.size then delete a capa (a.size - capa) else (a, 0, [])
     if capa > 0 then
-      match o.next with
+      match setcapaAsk capa o with
       | (false, o1) => (a1, false, ev1, o1)
       | (true, o1) => ({ a1 with capa := capa }, true, ev1, o1)
     else
